@@ -1,5 +1,5 @@
 """Per-property claim texts for MANIFEST.json and evidence files."""
-HOOK_COMMITS = ["854d707", "e0a56f6"]
+HOOK_COMMITS = ["854d707", "e0a56f6", "4a6a56b", "72c604f"]
 
 LR = "SAT-based bounded model checking (Kani/CBMC) of the real code under Lal-Reps K-round sequentialisation of thread interleavings"
 SEQ = "SAT-based bounded model checking (Kani/CBMC) of the real code over symbolic inputs / states against a reference model"
@@ -32,15 +32,38 @@ INFO = {
              technique="SAT-based bounded model checking (Kani/CBMC with C FFI) of the real Rust + C code over a fully symbolic input buffer"),
 }
 
-NOT_APPLICABLE = {
- "C02": "harnesses under construction in this round (registry nested/LR runs are being measured); see DESIGN.md",
- "C03": "harnesses under construction in this round",
- "C04": "harnesses under construction in this round",
- "C08": "nested-call harness exceeds the time cap at the planned bounds; being reduced",
- "C09": "iterator Lal-Reps harnesses under construction in this round",
- "C10": "iterator harnesses under construction in this round",
- "C11": "iterator Lal-Reps harnesses under construction in this round",
- "C12": "iterator harnesses under construction in this round",
- "C14": "entry-point harnesses under construction in this round",
- "C18": "barrier-progress harnesses under construction in this round",
-}
+NEST = "SAT-based bounded model checking (Kani/CBMC) of the real code with complete operations nested nondeterministically at the shim points of the interrupted code (signal-handler semantics)"
+INFO.update({
+ "C02": dict(level="bounded: one delivery runs exactly its signal's actions once each in id order with one read section per snapshot; mutators publish exactly one snapshot iff they changed something; unregister of any (signal,u128 id); overlap clause by composition with C01's half-lock result",
+             note="maps/Arc/Once stand-ins; the 'old or new list' clause under overlap is argued from the half-lock being a linearisable register (C01 harness), not solved over the whole registry",
+             technique=SEQ + KM),
+ "C03": dict(level="bounded: deliveries through the real dispatcher into flag, self-pipe wake, conditional shutdown and the iterator's exfiltrating action, pipe at any fill level: no lock, no spin/yield, no allocator call, no release of a last reference, <=12 shim steps, no write that may block; thorough: against a mutator on another thread (Lal-Reps)",
+             note="allocator entry points alloc::alloc::alloc / dealloc_nonnull stubbed (positive control harness); user-supplied actions and libc internals are outside",
+             technique=SEQ + KM + "; allocator stubs"),
+ "C04": dict(level="bounded: for each previous disposition (default, ignore, 1-arg, 3-arg SA_SIGINFO) deliveries before the take-over, after it and after another signal's first registration chain exactly once, first, with the right convention and the kernel's arguments",
+             note="integer->fn-pointer transmutes hand out logging trampolines; arrival *inside* the first registration is outside (see DESIGN 9)",
+             technique=SEQ + KM),
+ "C08": dict(level="bounded: send/recv from any well-formed channel state with a complete send or recv nested at any shim point and one spurious weak-CAS failure: no reachable panic, no waiting, own steps bounded, tags conserved",
+             note="representation invariant assumed for the pre-state; <=1 index in flight; 1 nested operation",
+             technique=NEST),
+ "C09": dict(level="bounded: a complete delivery nested anywhere in a consumer iteration, and a complete consumer iteration of another thread nested anywhere in the delivering action: the consumer never sleeps on the empty self-pipe with a delivered signal unreported",
+             note="consumer = SignalDelivery::poll_pending + pending() composed as SignalsInfo::wait does; 4-entry slot table; descriptor model",
+             technique=NEST + KM),
+ "C10": dict(level="bounded: histories of deliveries (watched / unwatched signal) and pending() batches: yields <= deliveries, nothing unwatched, nothing twice; also under nested deliveries",
+             note="SignalOnly exfiltrator end to end; info-carrying exfiltrators only through the channel properties",
+             technique=SEQ + KM),
+ "C11": dict(level="bounded: close() nested at any check of the closed flag / system call of a poll_signal or a blocking wait: Pending only after the callback was consulted and said no; sticky; later calls do not block",
+             note="tokio/async-std adapters map PollResult one-to-one and are not encoded",
+             technique=NEST + KM),
+ "C12": dict(level="bounded: add_signal with numbers that must be refused (panic: never returns, nothing changed; Err: nothing changed, retry identical), from a poisoned-lock state, re-add, drop and failing constructor (thorough)",
+             note="Kani has no unwinding: 'survives a caught panic' is decided as 'works from the state the panic leaves behind (lock poisoned, nothing else changed)'",
+             technique=SEQ + KM + "; lock/poison queries"),
+ "C14": dict(level="bounded: per checked entry point, all 5 forbidden signals never return and change nothing first; every c_int the kernel rejects gives Err with registry, dispositions and captures untouched/released; unchecked entry points pass the kernel verdict through",
+             note="release of captures on the panic path (unwinding) is outside",
+             technique=SEQ + KM),
+ "C18": dict(level="bounded: the writer barrier completes without a second spin when idle (any generation); with readers finished by round K-2 the writer is through in round K-1 (Lal-Reps K=3); lock order data->fallback only; registry and iterator survive poisoned locks",
+             note="starvation by an unbounded stream of overlapping deliveries is outside",
+             technique=LR + "; sequential harnesses for poison and lock order"),
+})
+
+NOT_APPLICABLE = {}
